@@ -18,9 +18,21 @@ func callSiteName(c *ssa.CallCommon) string {
 		return c.Method.Name()
 	}
 	if callee := c.StaticCallee(); callee != nil {
-		return callee.Name()
+		return baseName(callee)
 	}
 	return ""
+}
+
+// baseName: the function's name without the type-argument list of an instantiation
+// (Len[*T] -> Len), so that call sites of generic methods are named like any other.
+func baseName(fn *ssa.Function) string {
+	n := fn.Name()
+	for i := 0; i < len(n); i++ {
+		if n[i] == '[' {
+			return n[:i]
+		}
+	}
+	return n
 }
 
 func (x *Exec) callStep(f *frame, in *ssa.Call) {
@@ -28,11 +40,18 @@ func (x *Exec) callStep(f *frame, in *ssa.Call) {
 	k := x.calls[name] + 1
 	v := x.call(f, in, in.Common())
 	x.vals[in] = v
-	if name == "" || x.X.bvMode || v.T == "" {
+	if name == "" || v.T == "" {
 		return
 	}
 	val := v.T
-	if _, ok := x.X.intInfoOf(in.Type()); !ok {
+	if x.X.bvMode {
+		// bit-vector mode: integer results only, kept as their mathematical value
+		ii, ok := x.X.intInfoOf(in.Type())
+		if !ok {
+			return
+		}
+		val = x.bvConvert(v.T, ii, intInfo{math: true})
+	} else if _, ok := x.X.intInfoOf(in.Type()); !ok {
 		// pointers are references (Int): lastret("f") == 0 means the call returned nil; booleans are 0/1
 		if b, isB := in.Type().Underlying().(*types.Basic); isB && b.Info()&types.IsBoolean != 0 {
 			val = ite(v.T, "1", "0")
